@@ -769,4 +769,89 @@ def r11_resume_offset(a, tier):
     return rep
 
 
-RULES = [r1_mirror, r2_codecs, r3_reader, r4_exception_sets, r5_file_lifecycle, r6_checksum, r7_queue_invariants, r8_rle_roundtrip, r9_packet_fields, r10_reader_decoding, r11_resume_offset]
+def r12_envelope_roundtrip(a, tier):
+    """pack -> unpack, end to end on the JSON level: every member of the packet (class, id, recipient, data) comes back as it went in"""
+    import copy
+    import json as _json
+    import re as _re
+    import zlib
+
+    from ..minieval import Raised, Unsupported, module_constants
+    from ..modelinterp import Hook, ModelInterp
+    rep = RuleReport(
+        'C19.R12',
+        'the whole pipeline is lossless for every member of a packet, not only for the payload: pack() and unpack() are interpreted end to end '
+        '(their own code, rle_encode / rle_decode, compact_value / decompact_value, class_escape / tty_escape and inverses, hashed / unhashed; '
+        'json.dumps / loads and the regular expressions run by the standard library; asjson / fromjson - C14\'s subject - replaced by the '
+        'identity on JSON values) on packets whose id, recipient and data each range over strings made of the characters the encoding itself '
+        'uses ({~, a, 1} up to length 3, escaped tildes, marker-like text, runs) and over nested lists / dicts of them (also as dict KEYS): '
+        'unpack(pack(p)) == p',
+        floor=60,
+    )
+    pk = 'tatsu.packetz.packet'
+    packf, unpackf = a.p.func(f'{pk}.pack'), a.p.func(f'{pk}.unpack')
+    consts = {**dict(module_constants(a.p.module('tatsu.packetz.compact'))), **dict(module_constants(a.p.module(pk)))}
+
+    def h2s(d):
+        return f'{zlib.crc32(str(d).encode()) & 0xffff:04x}'
+
+    def errp(msg, extype=None):
+        raise Raised(getattr(extype, 'q', str(extype)).split('.')[-1] if extype is not None else 'Exception', ast.Pass())
+
+    def interp():
+        it = ModelInterp(a, {**consts, 'hash2str': Hook(h2s), 'ERROR_print': Hook(errp), 'asjson': Hook(copy.deepcopy), 'fromjson': Hook(lambda v: v),
+                             'json': Hook(None, dumps=Hook(_json.dumps), loads=Hook(_json.loads)),
+                             're': Hook(None, compile=Hook(_re.compile), match=Hook(lambda p_, s_, *f: _re.match(p_, s_, *f)), error=_re.error,
+                                        sub=Hook(lambda p_, r_, s_: _re.sub(p_, it.as_callable(r_) if not isinstance(r_, str) else r_, s_)),
+                                        Match=_re.Match, Pattern=_re.Pattern), 'len': Hook(len), 'int': Hook(int)})
+
+        def methods(recv, name, args, kwargs):
+            if isinstance(recv, _re.Pattern) and name == 'sub':
+                repl = args[0] if isinstance(args[0], str) else it.as_callable(args[0])
+                return recv.sub(repl, *args[1:])
+            if isinstance(recv, _re.Pattern) and name in ('match', 'search', 'fullmatch', 'findall'):
+                return getattr(recv, name)(*args)
+            if isinstance(recv, _re.Match) and name in ('group', 'groups', 'start', 'end'):
+                return getattr(recv, name)(*args)
+            return NotImplemented
+        it.methods = methods
+        return it
+    import itertools
+    small = [''.join(t) for k in range(0, 4) for t in itertools.product('~a1', repeat=k)]
+    nasty = ['~~', 'worker~~1', '~a4~', '~~a4~~', 'x~04~y', 'aaaa', 'aaaaaaaaaaaa~', '~aaaa', '00000007', '    indented', '1111~1', '~11111~']
+    strings = small if tier == 'thorough' else small[::3] + ['~', '~~', '~a1', 'a~1']
+    strings = list(dict.fromkeys(strings + nasty))
+    packets = []
+    for s_ in strings:
+        packets.append(('recipient', {'__class__': 'Packet', 'id': 'alpha', 'to': s_, 'data': None}))
+        packets.append(('id', {'__class__': 'Packet', 'id': s_, 'to': 'w', 'data': 0}))
+        packets.append(('data', {'__class__': 'Packet', 'id': 'alpha', 'to': 'w', 'data': s_}))
+    for s_ in nasty:
+        packets.append(('data (nested list)', {'__class__': 'Packet', 'id': 'i', 'to': 'w', 'data': [s_, [s_], {'k': s_}]}))
+        packets.append(('data (dict key)', {'__class__': 'Packet', 'id': 'i', 'to': 'w', 'data': {s_: 1, 'n': {s_: [s_]}}}))
+        packets.append(('all members', {'__class__': 'Packet', 'id': s_, 'to': s_, 'data': {'id': s_, 'to': s_, 'data': s_}}))
+    packets.append(('no recipient', {'__class__': 'Packet', 'id': 'i', 'data': '~~'}))
+    packets.append(('scalars', {'__class__': 'Packet', 'id': 'i', 'to': 'w', 'data': [0, 1.5, True, False, None, '', [], {}]}))
+    n_bad = 0
+    for what, pkt in packets:
+        sent = copy.deepcopy(pkt)
+        try:
+            line = interp().call_fn(packf, [pkt])
+            back = interp().call_fn(unpackf, [line])
+            raised = None
+        except Unsupported as e:
+            raise AnalysisError(f'C19.R12: cannot interpret pack / unpack on {pkt!r}: {e}') from e
+        except Raised as e:
+            line, back, raised = None, None, e.cls_name
+        ok = raised is None and back == sent and isinstance(line, str) and '\n' not in line
+        rep.add({'member': what, 'packet': sent, 'line': line, 'unpacked_equal': ok, 'raised': raised})
+        if not ok and n_bad < 8:
+            n_bad += 1
+            diff = [k for k in sent if not isinstance(back, dict) or back.get(k) != sent[k]] if raised is None else []
+            rep.fail(packf.qualname, f'roundtrip:{what}:{_json.dumps(sent, sort_keys=True)[:60]}', f'unpack(pack(p)) != p for p = {sent!r}: ' + (
+                f'raises {raised}' if raised else f'the member(s) {diff} come back as { {k: (back.get(k) if isinstance(back, dict) else back) for k in diff} }') +
+                ' - a stage of the pipeline is applied to one side only, or to a different part of the packet on each side', packf.loc)
+    return rep
+
+
+RULES = [r1_mirror, r2_codecs, r3_reader, r4_exception_sets, r5_file_lifecycle, r6_checksum, r7_queue_invariants, r8_rle_roundtrip, r9_packet_fields, r10_reader_decoding, r11_resume_offset, r12_envelope_roundtrip]
